@@ -228,8 +228,8 @@ class BindContextBase:
         pkt: Packet = await self._dev._async_send_cmd(  # type: ignore[assignment]
             cmd, priority=Priority.HIGH, qos=BINDING_QOS
         )
-        if pkt._hdr != cmd.tx_header:  # the peer's answer overtook the (lost) echo
-            pkt = Message._from_cmd(cmd)._pkt
+        if pkt._frame != cmd._frame:  # the peer's answer overtook the (lost) echo, or
+            pkt = Message._from_cmd(cmd)._pkt  # another's packet has the same header
         return pkt
 
     def rcvd_msg(self, msg: Message) -> None:
@@ -270,7 +270,9 @@ class BindContextRespondent(BindContextBase):
 
         try:
             # Step R1: Respondent expects an Offer
+            self._peer_id = None
             tender = await self._wait_for_offer()
+            self._peer_id = tender.src.id  # the Confirm (& Addenda) must come from it
 
             # Step R2: Respondent expects a Confirm after sending an Accept
             accept = await self._accept_offer(tender, accept_codes, idx=idx)
@@ -712,6 +714,13 @@ class RespSendAcceptWaitForConfirm(_DevSendCmdUntilReply, BindStateBase):
     def cast_accept_offer(self) -> None:
         """Ignore any received Offer, other than the first."""
         pass
+
+    def rcvd_msg(self, msg: Message) -> None:
+        """Ignore a Confirm from any device other than the one whose Offer was accepted."""
+        peer_id = getattr(self._context, "_peer_id", None)
+        if peer_id and msg.src.id != peer_id and msg.src.id != self._context._dev.id:
+            return
+        super().rcvd_msg(msg)
 
     async def wait_for_confirm(self, timeout: float | None = None) -> Message:
         return await self._wait_for_fut_result(timeout or _AFFIRM_WAIT_TIME)
